@@ -310,7 +310,11 @@ func (r *renderer) comment(c *Comment, role string) {
 		}
 		idx += search
 		r.spanAt("tagname", role, t.Name, base+idx, t.Name+":")
+		r.spanAt("tagword", role, t.Name, base+idx, t.Name)
 		search = idx + len(t.Name) + 1
+		if t.Value == "" {
+			r.spanAt("tagvalue", role, t.Name, base+search, "")
+		}
 		if t.Value != "" {
 			vi := strings.Index(c.Text[search:], t.Value)
 			if vi >= 0 {
